@@ -187,6 +187,8 @@ struct W<'c> {
     links: Vec<[Vec<Vec<u8>>; 2]>,
     /// ids of peers that were disconnected by either side (or ignored)
     dead_pids: Vec<PeerId>,
+    /// vital chunks the endpoint sent per address (all incarnations)
+    vital_sent: Vec<u32>,
 }
 
 enum Outcome<T> {
@@ -381,6 +383,49 @@ impl Engine for MultiEngine {
             ops.push(MultiOp::Advance { usec: *s.pick(&[500_000u64, 600_000, 1_100_000, 5_000_000]) });
             ops.push(MultiOp::Tick);
         }
+        // a long-lived peer: the endpoint sends vital chunks up to (just around) a multiple of the 10-bit
+        // sequence space, acknowledged in batches, then falls silent so that the last acknowledgement arrives
+        // in a bare keep-alive; other peers come and go around it in the random phase that follows
+        let long_lived = !crowd && accepting && c.chance(1, 40);
+        if long_lived {
+            let a = 0u8;
+            ops.push(MultiOp::RConnect { a, token: s.chance(1, 2) });
+            ops.push(MultiOp::Deliver { a, dir: 0, pick: 0 });
+            ops.push(MultiOp::Accept { a });
+            ops.push(MultiOp::Deliver { a, dir: 1, pick: 0 });
+            ops.push(MultiOp::Deliver { a, dir: 0, pick: 0 });
+            tag += 1;
+            ops.push(MultiOp::RSend { a, vital: true, len: 8, tag });
+            ops.push(MultiOp::RFlush { a });
+            ops.push(MultiOp::Deliver { a, dir: 0, pick: 0 });
+            let target = 1024 * s.range(1, 2) as i64 + *s.pick(&[-1i64, 0, 0, 0, 1]);
+            let batch = *s.pick(&[8i64, 16, 32]);
+            for k in 0..target {
+                tag += 1;
+                ops.push(MultiOp::Send { a, vital: true, len: *s.pick(&[0u16, 1, 1, 2]), tag });
+                if (k + 1) % batch == 0 || k + 1 == target {
+                    ops.push(MultiOp::Flush { a });
+                    ops.push(MultiOp::Deliver { a, dir: 1, pick: 0 });
+                    ops.push(MultiOp::Deliver { a, dir: 1, pick: 0 });
+                    if k + 1 < target {
+                        // the remote acknowledges with its next (non-vital) datagram
+                        tag += 1;
+                        ops.push(MultiOp::RSend { a, vital: false, len: 1, tag });
+                        ops.push(MultiOp::RFlush { a });
+                        ops.push(MultiOp::Deliver { a, dir: 0, pick: 0 });
+                    }
+                }
+            }
+            // silence: the remote's keep-alive carries the last acknowledgement
+            ops.push(MultiOp::RAdvance { a, usec: 600_000 });
+            ops.push(MultiOp::RTick { a });
+            ops.push(MultiOp::Deliver { a, dir: 0, pick: 0 });
+            for _ in 0..3 {
+                ops.push(MultiOp::Advance { usec: 1_100_000 });
+                ops.push(MultiOp::Tick);
+                ops.push(MultiOp::Deliver { a, dir: 1, pick: 0 });
+            }
+        }
         let n_target = ops.len() + n_target;
         while ops.len() < n_target {
             let a = s.below(naddr as u64) as u8;
@@ -456,6 +501,7 @@ impl Engine for MultiEngine {
             last_remote_out: Vec::new(),
             links: (0..NADDR).map(|_| [Vec::new(), Vec::new()]).collect(),
             dead_pids: Vec::new(),
+            vital_sent: vec![0; NADDR],
         };
         let mut crowd_seen = false;
         for op in &case.ops {
@@ -527,7 +573,7 @@ impl Engine for MultiEngine {
             ],
             real: vec!["net::Net", "net::collections::PeerMap", "the Connections inside Net", "remote peers (net::connection::Connection)", "packet codec, Huffman"],
             stub: vec!["UDP socket (per-address simulated links)", "clock", "RNG"],
-            required_probes: vec!["probe_peer_accepted", "probe_event_ready", "probe_event_chunk", "probe_event_disconnect", "probe_two_live_peers", "probe_unknown_addr_ignored", "probe_tick_sent", "probe_remote_close_delivered", "probe_nine_live_peers", "probe_seventeen_live_peers", "probe_noncanonical_connect"],
+            required_probes: vec!["probe_peer_accepted", "probe_event_ready", "probe_event_chunk", "probe_event_disconnect", "probe_two_live_peers", "probe_unknown_addr_ignored", "probe_tick_sent", "probe_remote_close_delivered", "probe_nine_live_peers", "probe_seventeen_live_peers", "probe_noncanonical_connect", "probe_peer_sequence_wrapped"],
             fault_kinds: vec!["fault_loss", "fault_duplication", "fault_reorder", "fault_send_failure", "fault_garbage"],
         }
     }
@@ -700,6 +746,12 @@ impl MultiEngine {
                 }
                 if let Some(x) = w.compare_out(ctx, "send", Some(a), nout, sout) {
                     stop!(Some(x));
+                }
+                if vital {
+                    w.vital_sent[a as usize] += 1;
+                    if w.vital_sent[a as usize] == 1024 {
+                        ctx.count("probe_peer_sequence_wrapped");
+                    }
                 }
             }
             MultiOp::Flush { a } => {
